@@ -617,6 +617,57 @@ def fixed_programs() -> list[Prog]:
     P.append(Prog("while_with_cond", while_with_cond, [i32(), f32()],
                   [[I(n), F(1.0)] for n in (0, 1, 2, 5)], expect=["while", "cond"]))
 
+    # ---- bodies with scatter (the loop_axis0_override heuristics), integer carries, literal inits,
+    #      nested scans of different lengths, symbolic state extents
+    def scan_scatter(xs, idx):
+        def step(c, xi):
+            x, i = xi
+            c = c.at[i].set(x)
+            return c, c.sum()
+        return lax.scan(step, jnp.zeros((5,), jnp.float32), (xs, idx))
+    P.append(Prog("scan_scatter_5_3", scan_scatter, [f32(3), i32(3)],
+                  [[F([1, 2, 3]), I([0, 4, 2])], [F([1, 2, 3]), I([1, 1, 1])]], expect=["scan"]))
+
+    def fori_scatter(x):
+        return lax.fori_loop(0, 3, lambda i, v: v.at[i].set(i * 2.0 + v[i]), x)
+    P.append(Prog("fori_scatter_5_3", fori_scatter, [f32(5)], [[F([1, 2, 3, 4, 5])]], expect=["fori"]))
+
+    def while_scatter(x, n):
+        def body(s):
+            i, v = s
+            return i + 1, v.at[i].set(v[i] * 10.0)
+        return lax.while_loop(lambda s: s[0] < n, body, (jnp.int32(0), x))
+    P.append(Prog("while_scatter", while_scatter, [f32(4), i32()],
+                  [[F([1, 2, 3, 4]), I(n)] for n in (0, 1, 3, 4)], expect=["while"]))
+
+    def scan_int(xs):
+        return lax.scan(lambda c, x: (c + x, c * 2), jnp.int32(1), xs)
+    P.append(Prog("scan_int", scan_int, [i32(4)], [[I([1, 2, 3, 4])]], expect=["scan"]))
+
+    def while_literal_init(n):
+        return lax.while_loop(lambda s: s < n, lambda s: s + 2, 0)
+    P.append(Prog("while_literal_init", while_literal_init, [i32()], [[I(n)] for n in (0, 1, 5)], expect=["while"]))
+
+    def scan_nested_len(a, b):
+        def outer(c, x):
+            def inner(d, y):
+                return d + x * y, d
+            d, ys = lax.scan(inner, c, b)
+            return d, ys.sum()
+        return lax.scan(outer, jnp.float32(0.0), a)
+    P.append(Prog("scan_nested_len", scan_nested_len, [f32(3), f32(2)], [[F([1, 2, 3]), F([4, 5])]],
+                  expect=["scan", "scan"]))
+
+    def scan_2d(xs):
+        return lax.scan(lambda c, x: (c + x.sum(), x * c), jnp.float32(1.0), xs)
+    P.append(Prog("scan_2d_symbolic", scan_2d, [("L", 3)],
+                  [[np.arange(3 * L, dtype=np.float32).reshape(L, 3)] for L in (1, 2, 5)], expect=["scan"]))
+
+    def while_sym_state(x, n):
+        return lax.while_loop(lambda s: s[0] < n, lambda s: (s[0] + 1, s[1] * 2.0), (jnp.int32(0), x))
+    P.append(Prog("while_symbolic_state", while_sym_state, [("B",), i32()],
+                  [[np.arange(B, dtype=np.float32), I(n)] for B in (1, 3) for n in (0, 2)], expect=["while"]))
+
     def cond_with_while(p, n):
         def loop(v):
             return lax.while_loop(lambda s: s[0] < n, lambda s: (s[0] + 1, s[1] * MAGIC[1]), (jnp.int32(0), v))[1]
@@ -727,16 +778,41 @@ def variant_programs() -> list[tuple]:
 CONSTRUCT_CODE = {"while": 0, "fori": 1, "scan": 2, "cond": 3}
 
 
+def _sample_inputs(specs) -> list:
+    out = []
+    for j, sp in enumerate(specs):
+        shape = tuple(sp.shape)
+        if np.issubdtype(np.dtype(sp.dtype), np.integer):
+            out.append(np.asarray(2, dtype=sp.dtype).reshape(shape) if shape == () else np.full(shape, 2, dtype=sp.dtype))
+        else:
+            n = int(np.prod(shape)) if shape else 1
+            out.append((vec(n, j) + 1.5).reshape(shape).astype(sp.dtype))
+    return out
+
+
 def tabulate_rejects() -> list[dict]:
     from jax2onnx import to_onnx
     rows = []
     for fields, fn, specs in variant_programs():
-        err = None
+        err, agree, detail = None, None, None
         try:
-            to_onnx(fn, list(specs))
+            model = to_onnx(fn, list(specs))
         except Exception as e:
             err = f"{type(e).__name__}: {str(e)[:120]}"
-        rows.append({**fields, "raised": err is not None, "error": err})
+        else:
+            # exported: does it compute what JAX computes on a sample input?
+            try:
+                inp = _sample_inputs(specs)
+                sess = ort_session(model.SerializeToString())
+                outs = run_guarded(sess, dict(zip([i.name for i in sess.get_inputs()], inp)))
+                exp = flat(fn(*inp))
+                agree = len(outs) == len(exp) and all(same_result(o, e) for o, e in zip(outs, exp))
+                detail = {"inputs": [np.asarray(v).reshape(-1)[:6].tolist() for v in inp],
+                          "ort": [np.asarray(o).reshape(-1)[:6].tolist() for o in outs],
+                          "jax": [np.asarray(e).reshape(-1)[:6].tolist() for e in exp]}
+            except Exception as e:
+                agree, detail = False, {"ort_error": f"{type(e).__name__}: {str(e)[-200:]}"}
+        rows.append({**fields, "raised": err is not None, "error": err, "agrees_with_jax": agree, "detail": detail})
     return rows
 
 
@@ -804,17 +880,24 @@ def same_result(a: np.ndarray, b: np.ndarray) -> bool:
     return bool(np.allclose(a.astype(np.float64), b.astype(np.float64), rtol=2e-5, atol=1e-5))
 
 
-def check_loop_semantics(chk: Check) -> None:
+LOOP_CASES = [(M, c0, a, b, c, T, s0) for M in (0, 1, 2, 5) for c0 in (False, True) for (a, b, c) in ((2, 1, 1), (1, 0, 3))
+              for T in (0, 4, 12, 1000) for s0 in (0, 1)]
+WHILE_CASES = [(a, c, T, s0) for (a, c) in ((2, 1), (1, 3)) for T in (0, 1, 5, 40) for s0 in (0, 1, 7)]
+
+
+def loop_semantics_requests() -> list:
+    reqs = [json.dumps({"op": "loop", "M": M, "cond0": c0, "a": a, "b": b, "c": c, "T": T, "s0": s0})
+            for (M, c0, a, b, c, T, s0) in LOOP_CASES]
+    reqs += [json.dumps({"op": "while", "a": a, "c": c, "T": T, "s0": s0, "fuel": 64}) for (a, c, T, s0) in WHILE_CASES]
+    return reqs
+
+
+def check_loop_semantics(chk: Check, raw: list) -> None:
     """`loopO` (the ONNX Loop of the theorems) vs ONNX Runtime on hand-built Loop models, and
     `whileFuel` vs a Python while."""
     from onnx import helper, TensorProto
-    cases = [(M, c0, a, b, c, T, s0) for M in (0, 1, 2, 5) for c0 in (False, True) for (a, b, c) in ((2, 1, 1), (1, 0, 3))
-             for T in (0, 4, 12, 1000) for s0 in (0, 1)]
-    reqs = [json.dumps({"op": "loop", "M": M, "cond0": c0, "a": a, "b": b, "c": c, "T": T, "s0": s0})
-            for (M, c0, a, b, c, T, s0) in cases]
-    wcases = [(a, c, T, s0) for (a, c) in ((2, 1), (1, 3)) for T in (0, 1, 5, 40) for s0 in (0, 1, 7)]
-    reqs += [json.dumps({"op": "while", "a": a, "c": c, "T": T, "s0": s0, "fuel": 64}) for (a, c, T, s0) in wcases]
-    ans = [json.loads(x) for x in common.run_driver("C06", reqs)]
+    cases, wcases = LOOP_CASES, WHILE_CASES
+    ans = [json.loads(x) for x in raw]
     I64 = TensorProto.INT64
     # body: s' = a*s + b*iter + c ; cond_out = s' < T ; scan out = s'
     body = helper.make_graph(
@@ -874,30 +957,11 @@ def run(chk: Check) -> None:
     t_start = time.time()
     rows = generate()
     t_table = time.time() - t_start
-    reqs = [json.dumps({"op": "accepts", **{k: r[k] for k in ("construct", "reverse", "nXs", "staticLength", "nState",
-                                                             "dynamicBounds", "capturesTracer", "nBranches")}}) for r in rows]
+    fields = ("construct", "reverse", "nXs", "staticLength", "nState", "dynamicBounds", "capturesTracer", "nBranches")
+    acc_reqs = [json.dumps({"op": "accepts", **{k: r[k] for k in fields}}) for r in rows]
     t_p = time.time()
     proved = chk.prove(MODS, checker=thorough)
     t_prove = time.time() - t_p
-    acc = [json.loads(a) for a in common.run_driver("C06", reqs)]
-    table_bad = []
-    for r, a in zip(rows, acc):
-        chk.count({"variant": {k: v for k, v in r.items() if k != "error"}, "error": r["error"]},
-                  nontrivial=r["raised"])
-        if r["raised"] == a["accepts"]:
-            table_bad.append({"variant": r, "model_accepts": a["accepts"]})
-    chk.info("reject_table", [{k: v for k, v in r.items()} for r in rows])
-    for tb in table_bad:
-        r = tb["variant"]
-        if not r["raised"]:
-            # exported although the scheme table says it must be rejected: is the export wrong?
-            chk.finding({"kind": "unsupported_variant_exported", **{k: r[k] for k in ("construct", "reverse", "nXs",
-                         "staticLength", "nState", "dynamicBounds", "capturesTracer", "nBranches")}},
-                        f"variant {r} is exported although no scheme covers it", {"variant": r})
-        else:
-            chk.violation({"what": "a variant the proved schemes cover is now rejected at export", "variant": r},
-                          name=f"reject-{r['construct']}", no_failing_input=True)
-    check_loop_semantics(chk)
 
     # ---- H: wiring of every real Loop/If node ---------------------------------------------
     progs = fixed_programs() + random_programs(rng, 24 if not thorough else 240)
@@ -934,7 +998,37 @@ def run(chk: Check) -> None:
                 continue
             reqs.append(json.dumps({"op": "prescribe", **rec["params"]}))
             owner.append((pi, ri))
-    answers = [json.loads(a) for a in common.run_driver("C06", reqs)] if reqs else []
+    # one driver process for everything: accept table, Loop semantics box, prescriptions
+    sem_reqs = loop_semantics_requests()
+    raw = common.run_driver("C06", acc_reqs + sem_reqs + reqs)
+    acc = [json.loads(a) for a in raw[:len(acc_reqs)]]
+    check_loop_semantics(chk, raw[len(acc_reqs):len(acc_reqs) + len(sem_reqs)])
+    answers = [json.loads(a) for a in raw[len(acc_reqs) + len(sem_reqs):]]
+    table_bad = []
+    for r, a in zip(rows, acc):
+        chk.count({"variant": {k: r[k] for k in fields}, "raised": r["raised"], "error": r["error"],
+                   "agrees_with_jax": r.get("agrees_with_jax")}, nontrivial=True)
+        if not r["raised"] and r.get("agrees_with_jax") is False and a["accepts"]:
+            chk.finding({"kind": "control_flow_mismatch", "program": "variant:" + r["construct"],
+                         **{k: r[k] for k in fields}},
+                        f"accepted variant {dict((k, r[k]) for k in fields)}: ONNX Runtime differs from JAX: {r.get('detail')}",
+                        {"variant": r})
+        if r["raised"] == a["accepts"]:
+            table_bad.append({"variant": r, "model_accepts": a["accepts"]})
+    chk.info("reject_table", [{k: v for k, v in r.items()} for r in rows])
+    for tb in table_bad:
+        r = tb["variant"]
+        if not r["raised"] and r.get("agrees_with_jax") is False:
+            # exported although no proved scheme covers it, and the export is wrong on a concrete input
+            chk.finding({"kind": "unsupported_variant_exported", **{k: r[k] for k in fields}},
+                        f"variant {dict((k, r[k]) for k in fields)} is exported instead of rejected and ONNX Runtime "
+                        f"differs from JAX: {r.get('detail')}", {"variant": r})
+        elif not r["raised"]:
+            chk.violation({"what": "a variant outside the proved schemes is now exported (ORT = JAX on the sample input)",
+                           "variant": r}, name=f"accept-{r['construct']}", no_failing_input=True)
+        else:
+            chk.violation({"what": "a variant the proved schemes cover is now rejected at export", "variant": r},
+                          name=f"reject-{r['construct']}", no_failing_input=True)
     mismatched_programs = set()
     for (pi, ri), model_w in zip(owner, answers):
         prog, _, ins = exported[pi]
